@@ -6,7 +6,9 @@ use ippref::WMsg;
 use vkit::gen::{self, G1Cfg};
 use vkit::rng::Rng;
 
-pub const HOSTILE: [&str; 8] = ["tails", "grid", "withlang", "tokens", "mutations", "bytes12", "chains", "pairs"];
+pub const HOSTILE: [&str; 9] = ["tails", "grid", "withlang", "tokens", "mutations", "bytes12", "chains", "pairs", "strings"];
+/// tags whose body is handed out as text
+pub const STRING_TAGS: [u8; 13] = [0x30, 0x35, 0x36, 0x41, 0x42, 0x44, 0x45, 0x46, 0x47, 0x48, 0x49, 0x4a, 0x13];
 /// names whose undecodable octets each expand to a 3-octet U+FFFD when decoded lossily (21846 x 3 > 65535)
 pub const LONG_NAME_LENS: [usize; 5] = [21845, 21846, 32767, 32768, 65535];
 pub const PAIR_LENS: [usize; 24] = [0, 1, 2, 31, 32, 33, 63, 64, 65, 100, 120, 127, 128, 129, 200, 255, 256, 257, 1023, 1024, 1025, 4095, 4096, 4097];
@@ -98,6 +100,9 @@ impl Ctx {
             // two consecutive elements of every pair of lengths (state carried from one name / value / member to the next:
             // reused buffers, remembered capacities), as names, as values, as member names and as member values
             "pairs" => 4 * (PAIR_LENS.len() * PAIR_LENS.len()) as u64 + (LONG_NAME_LENS.len() * 4) as u64,
+            // every string of the generators' "tricky" dictionary under every text-like tag (also as the language / text parts of
+            // the with-language syntaxes): displaying, re-encoding ... such values must not panic
+            "strings" => (STRING_TAGS.len() * gen::TRICKY.len()) as u64,
             "mutations" => {
                 if self.thorough() {
                     2_000_000
@@ -263,6 +268,17 @@ impl Ctx {
                 v.push(0x03);
                 (v, format!("pairs kind={kind} lengths=({l1},{l2})"))
             }
+            "strings" => {
+                let (tag, body) = strings_params(idx);
+                let mut v = gen::HDR.to_vec();
+                v.push(0x04);
+                v.push(tag);
+                v.extend_from_slice(&[0, 1, b's']);
+                v.extend_from_slice(&(body.len() as u16).to_be_bytes());
+                v.extend_from_slice(&body);
+                v.push(0x03);
+                (v, format!("strings tag={tag:#04x} body={:?}", String::from_utf8_lossy(&body)))
+            }
             "tokens" => {
                 let mut i = idx;
                 let mut len = 0u32;
@@ -295,6 +311,23 @@ impl Ctx {
             _ => panic!("unknown family {fam}"),
         }
     }
+}
+
+/// (tag, body) of the strings family
+pub fn strings_params(idx: u64) -> (u8, Vec<u8>) {
+    let t = STRING_TAGS[(idx as usize) % STRING_TAGS.len()];
+    let s = gen::TRICKY[(idx as usize / STRING_TAGS.len()) % gen::TRICKY.len()].as_bytes();
+    let body = if t == 0x35 || t == 0x36 {
+        // the string as language and as text
+        let mut b = (s.len() as u16).to_be_bytes().to_vec();
+        b.extend_from_slice(s);
+        b.extend_from_slice(&(s.len() as u16).to_be_bytes());
+        b.extend_from_slice(s);
+        b
+    } else {
+        s.to_vec()
+    };
+    (t, body)
 }
 
 /// (tag, body = one short word repeated up to the length, word index)
